@@ -138,6 +138,41 @@ CLAIMS = {
               "results."),
         ref="DESIGN.md §3 C19",
         technique="Lean 4 proofs of control/limit logic + placement and off-by-one sweeps + twin correspondence"),
+    "C06": dict(
+        text=("Lean 4 theorems about the loop of Builder::check (Check.loop/run over the twin's runIter, all programs, all "
+              "fuels): loop_shape / first_panic (the run ends with the panic of the FIRST failing iteration, every earlier "
+              "iteration completed, nothing after it is executed), ok_only_if_none_failed (normal return only if no "
+              "executed iteration failed), later_run_starts_clean (a run is a function of the program). What is dropped "
+              "while the panic unwinds and whether the process survives is not modelled: it is exercised by the "
+              "correspondence run - a user panic inserted at every position of every thread of programs over every object "
+              "kind, and loom-raised failures (deadlock, race, leak, branch limit) with guards, Arc handles, tracked and "
+              "raw allocations and block_on frames alive in the failing thread; the process must survive, the verdict "
+              "class must be one the reference semantics has, later programs in the same process must match the twin. "
+              "Three abort defects found this way were repaired (F8, F12, F13: fix commits c00b711, 8c1ee7c, 6d9d832); "
+              "F11 (closure of a never-started thread dropped outside the model) is not reachable through the DSL."),
+        ref="DESIGN.md §3 C06",
+        technique="Lean 4 proof over the check loop + panic-injection correspondence runs with process-survival oracle"),
+    "C17": dict(
+        text=("Lean 4 theorems over the twin's thread-local / lazy-static model (Interp.tlsGet, dropLocals, lazyGet, "
+              "finishThread) - see checks/theorems.json for the audited list - plus evaluation against the reference "
+              "semantics (Spec/SC.lean: a thread-local is created on first access by a thread, private, destroyed at "
+              "thread end, AccessError afterwards; a lazy static is created once per execution with an init -> access "
+              "edge) on exhaustive small families: 1-3 threads x every access pattern of 2 keys x 3 destructor "
+              "behaviours, init/drop counters and instance ids, UnsafeCell inside the lazy value as race probe; every "
+              "iteration replayed on the twin. F14 (destructor order from a HashMap) was repaired (b67ec75); known "
+              "findings F20 (join returns before the thread's TLS destructors) and F22 (lazy statics torn down when the "
+              "main closure returns)."),
+        ref="DESIGN.md §3 C17",
+        technique="Lean 4 theorems over the TLS/lazy-static model + reference outcomes + decision replay + cross-process determinism probe"),
+    "C20": dict(
+        text=("Lean 4 theorems over the twin's block_on / waker / AtomicWaker state machines (Interp.blockOnStage, "
+              "wakeStage; Notify and Arc laws of C08/C11 underneath) - see checks/theorems.json - plus evaluation against "
+              "the reference semantics (Spec/SC.lean: poll / register / re-check / wait phases) on families with one or "
+              "two blocked futures and 1-2 wakers: wake by value / by reference / through AtomicWaker, before, during and "
+              "after poll and registration, waker dropped, flag only, nobody waking (deadlock must be reported, not an "
+              "abort: F8 repaired in c00b711); outcomes and verdicts must be equal; every iteration replayed on the twin."),
+        ref="DESIGN.md §3 C20",
+        technique="Lean 4 theorems over the block_on/AtomicWaker model + reference outcomes + decision replay"),
     "C14": dict(
         text=("Machine-checked proof (Lean 4) over the model of rt/path.rs for ALL paths and iterations: step_spec, "
               "frame lemmas for every Path API call, no_repeat (decision vectors pairwise distinct), dfs_order, "
